@@ -20,7 +20,7 @@ Import ListNotations.
 From BWStore Require Import AMap Store Lookup LookupSpec Corr.
 Open Scope N_scope.
 Definition P0 (i : N) : pred := Build_pred i None.
-Definition P1 (i : N) (n o : Z) : pred := Build_pred i (Some (Build_time n o)).
+Definition P1 (i : N) (n o u : Z) : pred := Build_pred i (Some (Build_time n o u)).
 Definition T (s : N) (p : pred) (o : obj) (r : N) : triple := Build_triple s p o r.
 Definition LO (m : Z) (l u : option Z) (la : bool) (f : option (fop * ffield)) (o : Z) : lopts := Build_lopts m l u la f o.
 """
@@ -38,10 +38,16 @@ def z(n):
     return "(%d)%%Z" % n
 
 
+def inst(sec, nsec):
+    """instant in nanoseconds since the Unix epoch (unbounded)"""
+    return sec * 10**9 + nsec
+
+
 def c_pred(p):
+    """p = [id] | [id, unix seconds, nanoseconds, zone offset, Go's UnixNano()]"""
     if len(p) == 1:
         return "(P0 %d)" % p[0]
-    return "(P1 %d %s %s)" % (p[0], z(p[1]), z(p[2]))
+    return "(P1 %d %s %s %s)" % (p[0], z(inst(p[1], p[2])), z(p[3]), z(p[4]))
 
 
 def c_obj(o):
@@ -102,7 +108,8 @@ FFIELDS = ["FSubject", "FPredicate", "FObject", "FFieldOther"]
 
 
 def c_optz(v):
-    return "None" if v is None else "(Some %s)" % z(v)
+    """v = None | [unix seconds, nanoseconds]"""
+    return "None" if v is None else "(Some %s)" % z(inst(v[0], v[1]))
 
 
 def c_lopts(lo):
@@ -336,7 +343,7 @@ def replay(ctx, flags, hargs, cfg):
 import store_oracle as so
 
 
-def oracle_failures(seed, hargs, hists, c01, c02, c09, limit=3):
+def oracle_failures(seed, hargs, hists, c01, c02, c09, limit=3, ctx=None):
     """disagreements between the implementation's observations and the Python reading of the SPEC"""
     out = []
     for h in hists:
@@ -362,6 +369,11 @@ def oracle_failures(seed, hargs, hists, c01, c02, c09, limit=3):
             v["failing_lookups"] = fails[:5]
         else:
             v["detail"] = detail
+        if ctx is not None:
+            try:
+                v["shrunk"] = shrink(ctx, h, step, (c01, c02, c09), detail if comp == "c09" else None)
+            except Exception as e:      # shrinking is a convenience; never hide the original failure
+                v["shrunk"] = "shrinking failed: %s" % e
         out.append(v)
         if len(out) >= limit:
             break
@@ -369,7 +381,7 @@ def oracle_failures(seed, hargs, hists, c01, c02, c09, limit=3):
 
 
 def oracle_check(ctx, seed, hargs, hists, c01, c02, c09):
-    for v in oracle_failures(seed, hargs, hists, c01, c02, c09):
+    for v in oracle_failures(seed, hargs, hists, c01, c02, c09, ctx=ctx):
         ctx.violation(v)
 
 
@@ -377,7 +389,63 @@ def oracle_search(ctx, flags, hargs, cfg, n=150):
     """failing-input search without the Coq model (used when an obligation or the build is broken)"""
     try:
         hists = hstore(["-mode", "hist", "-n", n, "-seed", ctx.seed] + flags + hargs)
-        fails = oracle_failures(ctx.seed, hargs, hists, *cfg, limit=1)
+        fails = oracle_failures(ctx.seed, hargs, hists, *cfg, limit=1, ctx=ctx)
     except Exception:
         return None
     return fails[0] if fails else None
+
+
+# ---------------------------------------------------------------- shrinking (delta debugging over operations and batches)
+def run_case(ctx, case, c02, c09):
+    path = os.path.join(ctx.work, "shrink-case.json")
+    with open(path, "w") as f:
+        json.dump(case, f)
+    args = ["-mode", "replay", "-file", path] + (["-c02"] if c02 else []) + (["-c09"] if c09 else [])
+    return hstore(args)[0]
+
+
+def shrink(ctx, h, step, cfg, c09_entry=None, budget=120):
+    """smallest operation list (prefix of h up to `step`, operations and batch elements removed) on which the
+    implementation still disagrees with the Python reading of the SPEC; None if the oracle does not see the failure"""
+    c01, c02, c09 = cfg
+    ops = [s["op"] for s in h["steps"][:step + 1]]
+
+    def fails(ops):
+        case = {"universe": h["universe"], "pools": h["pools"], "names": h["names"], "ops": ops, "c09": {}}
+        if c09 and c09_entry is not None:
+            case["c09"] = {str(len(ops) - 1): {"qs": c09_entry["qs"], "los": c09_entry["los"], "d": 0}}
+        try:
+            r = run_case(ctx, case, c02, c09)
+        except vcheck.Broken:
+            return False
+        return so.check_history(r, c01, c02, c09) is not None
+
+    if not fails(ops):
+        return None
+    runs = 1
+    chunk = max(1, len(ops) // 2)
+    while chunk >= 1 and runs < budget:
+        i, changed = 0, False
+        while i < len(ops) - 1 and runs < budget:          # the last operation stays: the failure is observed after it
+            cand = ops[:i] + ops[min(i + chunk, len(ops) - 1):]
+            runs += 1
+            if len(cand) < len(ops) and fails(cand):
+                ops, changed = cand, True
+            else:
+                i += chunk
+        if not changed:
+            chunk //= 2
+    # batches: drop single elements
+    for k in range(len(ops)):
+        if ops[k][0] in ("add", "rem"):
+            j = 0
+            while j < len(ops[k][2]) and runs < budget:
+                cand = [list(o) for o in ops]
+                cand[k] = [ops[k][0], ops[k][1], ops[k][2][:j] + ops[k][2][j + 1:]]
+                runs += 1
+                if fails(cand):
+                    ops = cand
+                else:
+                    j += 1
+    used = sorted(set(r for o in ops if o[0] in ("add", "rem") for r in o[2]))
+    return {"operations": ops, "triples_used": {r: h["strs"][r] for r in used}, "harness_runs": runs}
